@@ -4,6 +4,7 @@ import Norad.Spec.DSVocab
 import Norad.Generated.Vocab
 import Norad.Lemmas.C05
 import Norad.Lemmas.C05Bridge
+import Norad.Lemmas.C05Doc
 import Norad.Props.C02
 /-!
 # C05 — files are UFO 3 as an independent implementation reads and writes it
@@ -342,6 +343,25 @@ theorem norad_parser_reads_spec_writer {rd : Str → Option Nat} {rdr : Render} 
    fun cid hi => norad_parses_spec_contour_attrs seen cid hi,
    fun _ hn => norad_parses_spec_glyph_attrs hn⟩
 
+/-- **norad's parser reads a WHOLE document of the specification-level writer** (`Ufo3.specWrite` itself, not a
+variant: every attribute spelt out, also the defaults `type="offcurve"`, `smooth="no"`, all six coefficients, both
+advance attributes; its own attribute and element order).  `eventsOf rl (specWrite rdr d)` is the canonical event list
+of the written tree; `gdocOf libD d` is the document of the glif builder's generative grammar (`Lemmas/GlifGen.lean`)
+describing the same glyph, and `glyphOf nc libD d` the glyph it describes in closed form (`interp_gdocOf`; what is
+returned is `load_object_libs` of it, as for every document).  The proof shows that every event of
+`specWrite` makes the parser do the same thing, in every format-2 state, as the grammar's rendering of the same object
+with a norad-style spelling `F` that reads back (`StepSame`, `body_same`), and concludes with
+`Glif.legal_accepted_gdoc`.  Hypotheses: a valid glyph name; `DescOK` (numbers in the codec's domain, valid names, colours
+in 0..1 that survive three decimals, coefficients and advance the encoder's gates would not alter); the described
+document is legal in the glif builder's sense (`Glif.LegalItems`: identifiers valid and pairwise different, contours
+`C11.accepts`-legal, angle/name/code-point rules); the lib element's text is a dictionary; both codecs. -/
+theorem norad_parser_reads_spec_document {F : Fmt} {rd : Str → Option Nat} {rdr : Render} {nc : Color → Color}
+    {ok : Nat → Prop} (hF : Codec F rd nc ok) (hP : ParseCodec rd rdr ok) (rl : String → LibV) (libD : Dict) (d : GlyphD)
+    (hn : validName (L d.name) = true) (hv : DescOK ok nc d) (hl : ∀ t, d.lib = some t → rl t = .dict libD)
+    (hL : LegalItems ok (itemsOf libD d)) :
+    parseGlif rd (eventsOf rl (specWrite rdr d)) = loadObjectLibs (glyphOf nc libD d) := by
+  rw [← interp_gdocOf]; exact parse_specWrite hF hP rl libD d hn hv hl hL
+
 /-! non-vacuity of the two codec hypotheses (the glif builder's `F0`, `R0`, `nc0`, `ok0`: every number is 0) -/
 
 def lex0 : Lex :=
@@ -369,6 +389,47 @@ theorem parseCodec0 : ParseCodec R0 render0 ok0 := by
     obtain ⟨h1, _⟩ := h1; obtain ⟨h2, _⟩ := h2; obtain ⟨h3, _⟩ := h3; obtain ⟨h4, _⟩ := h4
     cases h1; cases h2; cases h3; cases h4; decide
   · intro c hv; simpa [render0] using parseHex_showCodepoint hv.1 hv.2
+
+/-- a sample description: code point, anchor with name and identifier, one contour, one component -/
+def d0 : GlyphD :=
+  { name := "a", width := 0, height := 0, unicodes := [65], note := none, image := none, guidelines := [],
+    anchors := [⟨0, 0, some "t", none, some "i"⟩],
+    contours := [⟨none, [⟨0, 0, .line, false, none, some "p"⟩]⟩],
+    components := [⟨"b", ⟨0, 0, 0, 0, 0, 0⟩, some "k"⟩], lib := none }
+
+theorem descOK_d0 : DescOK ok0 nc0 d0 := by
+  refine ⟨rfl, rfl, Or.inr rfl, Or.inr rfl, ?_, ?_, ?_, ?_, ?_, ?_⟩
+  · intro c hc; simp [d0] at hc; subst hc; exact ⟨by decide, by decide⟩
+  · intro i hi; cases hi
+  · intro g hg; simp [d0] at hg
+  · intro a ha; simp [d0] at ha; subst ha
+    exact ⟨rfl, rfl, (by intro n hn; cases hn; decide), (by intro x hx; cases hx), (by intro x hx; cases hx)⟩
+  · intro c hc p hp; simp [d0] at hc; subst hc; simp at hp; subst hp
+    exact ⟨rfl, rfl, (by intro n hn; cases hn)⟩
+  · intro k hk; simp [d0] at hk; subst hk
+    exact ⟨by decide, ⟨rfl, rfl, rfl, rfl, rfl, rfl⟩,
+      ⟨Or.inl (by decide), Or.inr rfl, Or.inr rfl, Or.inl (by decide), Or.inr rfl, Or.inr rfl⟩⟩
+
+theorem legal_d0 : LegalItems ok0 (itemsOf [] d0) := by
+  refine ⟨?_, by decide, by decide, by decide, by decide, by decide, by decide⟩
+  intro it hit
+  simp [itemsOf, d0] at hit
+  rcases hit with h | h | h | h <;> subst h
+  · exact ⟨rfl, rfl⟩
+  · exact ⟨by decide, by decide⟩
+  · exact ⟨rfl, rfl, (by intro n hn; cases hn; decide), (by intro i hi; cases hi; decide)⟩
+  · intro oit ho
+    simp [oitsOf, d0] at ho
+    rcases ho with h | h <;> subst h
+    · refine ⟨?_, (by decide), (by intro i hi; cases hi)⟩
+      intro cit hc; simp at hc; subst hc
+      exact ⟨rfl, rfl, (by intro n hn; cases hn), (by intro i hi; cases hi; decide)⟩
+    · exact ⟨(by decide), ⟨rfl, rfl, rfl, rfl, rfl, rfl⟩, (by intro i hi; cases hi; decide)⟩
+
+-- the document theorem applies: its hypotheses are satisfiable together
+example : parseGlif R0 (eventsOf (fun _ => .bad) (specWrite render0 d0)) = loadObjectLibs (glyphOf nc0 [] d0) :=
+  norad_parser_reads_spec_document codec0 parseCodec0 (fun _ => .bad) [] d0 (by decide) descOK_d0
+    (by intro t ht; cases ht) legal_d0
 
 -- the element theorems apply (their codec hypothesis is satisfiable)
 example := norad_parser_reads_spec_writer parseCodec0 []
